@@ -2,9 +2,14 @@
    Directives used: those of ExtrOcamlBasic only (bool, option, unit, list, prod, sumbool, sumor);
    no Extract Constant; Z / positive stay as extracted inductives. *)
 Require Import ExtrOcamlBasic.
-Require Import Base Fixed Panic Curve.
+Require Import Base Fixed Panic Curve TxConstants Tx TxToy.
 Extraction Language OCaml.
 Extraction "extract/model.ml"
   p_pause p_unpause p_unpause_if_expired p_is_expired p_can_pause c_is_expired ix_propagate
   ix_panic_pause ix_panic_unpause ix_panic_unpause_permissionless is_protocol_paused mkP
-  ir_validate calc_interest_rate mpc legacy_curve.
+  ir_validate calc_interest_rate mpc legacy_curve
+  validate_ix_first validate_ix_last validate_ixes_exclusive validate_instructions check_flashloan_can_start
+  flags_of_Z Z_of_flags toy_exec_tx_r toy_h_end toy_init toy_maint toy_equity toy_world top proxy
+  mk_CB mk_FG mk_SL mk_EL mk_SD mk_ED mk_SF mk_EF mk_WD mk_RP mk_BR mk_DP mk_IR mk_LQ mk_HB mk_TR
+  IX_IR IX_SL IX_EL IX_WD IX_RP IX_SE IX_WE IX_KW IX_DW IX_SF IX_EF IX_SD IX_ED IX_BR IX_DP IX_LQ IX_HB IX_TR
+  IX_SW IX_PH IX_KRR IX_KRO IX_DUS.
